@@ -6,6 +6,11 @@ import (
 	"math/rand"
 	"strings"
 
+	"github.com/sahandsafizadeh/qeep/component/layers"
+	"github.com/sahandsafizadeh/qeep/component/layers/activations"
+	"github.com/sahandsafizadeh/qeep/component/losses"
+	"github.com/sahandsafizadeh/qeep/component/metrics"
+	"github.com/sahandsafizadeh/qeep/component/optimizers"
 	"github.com/sahandsafizadeh/qeep/tensor"
 
 	"qeepverif/internal/ref"
@@ -292,4 +297,29 @@ func argGuard(ts ...tensor.Tensor) func() string {
 // forward values must not depend on tracking.
 func coinLeaf(x *ref.T) tensor.Tensor {
 	return rt.MustLeaf(x, len(x.Data) > 0 && (math.Float64bits(x.Data[0])>>3)&1 == 1)
+}
+
+// refusedCalls makes a few calls that the library must REFUSE (each returns an error), on fresh objects of its own: an optimizer
+// step on a tensor without gradient and on a nil tensor, an Accuracy call with mismatched lengths, a Concat of unfit shapes, a
+// Softmax with a negative dimension, an FC forward with a wrong input width. A refused call must not leave anything behind that
+// changes what later, unrelated calls do; the checks call this before the behaviour they decide.
+func refusedCalls(k interface{ Count(string, int64) }) {
+	call(func() {
+		opt := optimizers.NewSGD(nil)
+		w := rt.MustLeaf(ref.Full([]int{2}, 1), true)
+		_ = opt.Update(&w)
+		var none tensor.Tensor
+		_ = opt.Update(&none)
+		_ = opt.Update(nil)
+		acc := metrics.NewAccuracy()
+		_ = acc.Accumulate(rt.MustLeaf(ref.Full([]int{2}, 1), false), rt.MustLeaf(ref.Full([]int{3}, 1), false))
+		_, _ = tensor.Concat([]tensor.Tensor{rt.MustLeaf(ref.Full([]int{2, 3}, 1), false), rt.MustLeaf(ref.Full([]int{4, 5}, 1), false)}, 0)
+		_, _ = activations.NewSoftmax(&activations.SoftmaxConfig{Dim: -1})
+		if fc, err := layers.NewFC(&layers.FCConfig{Inputs: 2, Outputs: 2}); err == nil {
+			_, _ = fc.Forward(rt.MustLeaf(ref.Full([]int{1, 5}, 1), false))
+		}
+		_, _ = losses.NewBCE().Compute(rt.MustLeaf(ref.Full([]int{2}, 0.5), false), rt.MustLeaf(ref.Full([]int{3}, 1), false))
+		_, _ = tensor.Full([]int{-1}, 1, nil)
+	})
+	k.Count("batches_of_refused_calls_made_before_the_decided_behaviour", 1)
 }
